@@ -240,6 +240,15 @@ def hook_up(ctx, db):
     for tr in trs:
         call = index_of(tr, lambda ev: ev.k == 'call' and (ev.get('recv') or '') == 'this->_fn')
         if call < 0:
+            # already hooked up: this is a plain re-registration with the private signal, which is refused once the generator has dropped
+            # the collector - the refusal (false = do not suspend, await_resume reports the disconnect) must reach the language
+            ss_ = all_indices(tr, callee_is('cocls::signal::emitter::await_suspend'))
+            if len(ss_) != 1:
+                bad = bad or ('the already hooked path registers %d times' % len(ss_), tr)
+            else:
+                rp_ = origin_in_trace(tr, len(tr), ret_expr(tr) or '')[0] or ''
+                if 'emitter::await_suspend' not in rp_:
+                    bad = bad or ('on the already hooked path the answer of the re-registration is not returned: a refused registration (signal disconnected) leaves the coroutine suspended for ever', tr)
             continue
         n += 1
         w = index_of(tr, lambda ev: ev.k == 'write' and (ev.get('path') or '') == 'this->_hooked' and ev.get('const') == 1)
